@@ -2544,6 +2544,7 @@ func (e *executor) mapper(ctx context.Context, ch chan mapResponse, nodes []*Nod
 			}
 
 			// Return response to the channel.
+			verifPoint("executor.mapper.result", uint64(len(nodeShards)), nodeShards[0])
 			select {
 			case <-ctx.Done():
 			case ch <- resp:
@@ -2565,6 +2566,7 @@ func worker(work chan job) {
 	for j := range work {
 		result, err := j.mapFn(j.shard)
 
+		verifPoint("executor.worker.result", j.shard, 0)
 		select {
 		case <-j.ctx.Done():
 		case j.resultChan <- mapResponse{result: result, err: err}:
